@@ -69,6 +69,18 @@ Theorem C14_model_passes_c14_check : forall fc fp limN limS ops,
   c14_check limN limS ops (hist fc fp limN limS ops) = true.
 Proof. exact model_passes_c14_check. Qed.
 
+(* the checker's DAG test (iterative peeling) is EXACTLY the rank hypothesis of T5: it succeeds on
+   every parents-closed DAG (so t5_check is not vacuous there) and, with distinct ids, only there *)
+Theorem C14_closed_dag_complete : forall (rank : N -> nat) cs,
+  (forall x, In x cs -> forall p, In p (pars x) ->
+     (exists y, In y cs /\ eid y = p) /\ (rank p < rank (eid x))%nat) ->
+  closed_dag cs = true.
+Proof. exact closed_dag_complete. Qed.
+Theorem C14_closed_dag_sound : forall cs, NoDup (map eid cs) -> closed_dag cs = true ->
+  exists rank : N -> nat, forall x, In x cs -> forall p, In p (pars x) ->
+    (exists y, In y cs /\ eid y = p) /\ (rank p < rank (eid x))%nat.
+Proof. exact closed_dag_rank. Qed.
+
 (* SOUNDNESS of the checkers that the driver runs on the IMPLEMENTATION's log: on an arbitrary
    log l (oldest first) and copies table cs, checker = true implies the statement *)
 Theorem C14_checker_T1_sound : forall cs l, t1_walk cs [] l = true ->
@@ -162,6 +174,8 @@ Print Assumptions C14_T5_complete.
 Print Assumptions C14_model_passes_checkers_T1_T2.
 Print Assumptions C14_model_passes_checkers_T3_T4.
 Print Assumptions C14_model_passes_c14_check.
+Print Assumptions C14_closed_dag_complete.
+Print Assumptions C14_closed_dag_sound.
 Print Assumptions C14_checker_T1_sound.
 Print Assumptions C14_checker_T2_sound.
 Print Assumptions C14_checker_T3_sound.
